@@ -86,7 +86,10 @@ def run(ctx):
             r1.violation(key, "memo.%s is keyed by %s — the key must be the word (or a prefix slice of it) exactly as typed" % (op, desc), site_of(b, bb))
     # the key used for contains_key and insert must be the same value as the one the entry is computed from
     fill = [fk for (fk, bb, op, k_e) in keys if op == "insert"]
-    if len(set(fill)) == 1:
+    if len(fill) > 1:
+        r1.violation("fill", "the memo is inserted into at %d places on the event path (expected exactly one: the fill under !contains_key)" % len(fill),
+                     common.fn_line(prog, fill[0]))
+    elif len(set(fill)) == 1:
         fb = prog.body(fill[0])
         ins = [(bb, k_e) for (fk, bb, op, k_e) in keys if op == "insert"][0]
         cks = [(bb, k_e) for (fk, bb, op, k_e) in keys if op == "contains_key" and fk == fill[0]]
@@ -129,7 +132,9 @@ def run(ctx):
                 for (bb2, t2) in kb.calls():
                     for a2 in kb.call_args(t2):
                         sp_ = self_path(a2)
-                        if sp_ and sp_[0] not in allowed_fields and sp_[0] != memo:
+                        if sp_ and sp_[0] == memo:
+                            inputs_ok, bad_in = False, (x, "other memo entries (self.%s read in %s) — the entry then depends on what was typed before" % (memo, k.split("::")[-1]))
+                        elif sp_ and sp_[0] not in allowed_fields:
                             inputs_ok, bad_in = False, (x, "self.%s (read in %s)" % (sp_[0], k.split("::")[-1]))
         if same and inputs_ok and region_calls:
             r1.ok("fill", "entry computed under !contains_key(w) from w, the parsers, the user auto-correct map, the letter table and cleared scratch; inserted under the same w")
